@@ -9,7 +9,10 @@ package acpi
 // of the BIOS search window, the two root tables, the tables with a good or
 // corrupted checksum, the FADT's DSDT pointers; see specs/acpi/AcpiEnum.tla) is
 // laid out in ACPI's packed binary format inside a MAP_32BIT arena, so that
-// 32-bit table pointers are real addresses and identityMapFn is the identity.
+// 32-bit table pointers are real addresses and identityMapFn is the identity;
+// structures reachable through 64-bit pointers only (XSDT, the tables it lists,
+// the DSDT behind X_DSDT) may be placed in a second area above 4 GiB whose
+// addresses modulo 2^32 are inaccessible, so a truncated pointer faults.
 // rsdpLocationLow/Hi are pointed at a window of the real size (8192 slots);
 // window and table area each end flush against a PROT_NONE page.  The REAL
 // probeForACPI and DriverInit run on it; one JSON event per image is logged:
@@ -57,11 +60,12 @@ type c14Cand struct {
 }
 
 type c14Table struct {
-	Sig string `json:"sig"`
-	Len int    `json:"len"`
-	Bad int    `json:"bad"`
-	P32 int    `json:"p32"`
-	P64 int    `json:"p64"`
+	Sig  string `json:"sig"`
+	Len  int    `json:"len"`
+	Bad  int    `json:"bad"`
+	P32  int    `json:"p32"`
+	P64  int    `json:"p64"`
+	High bool   `json:"high"` // placed above 4 GiB (reachable through 64-bit pointers only)
 }
 
 type c14Img struct {
@@ -69,6 +73,7 @@ type c14Img struct {
 	Rsdt   []int      `json:"rsdt"`
 	Xsdt   []int      `json:"xsdt"`
 	Tables []c14Table `json:"tables"`
+	Xhigh  bool       `json:"xhigh"` // the 64-bit root table sits above 4 GiB
 }
 
 type c14Case struct {
@@ -101,7 +106,53 @@ type c14Arena struct {
 	mem    []byte
 	window []byte // the BIOS search area, followed by an inaccessible page
 	tables []byte // table area, followed by an inaccessible page
-	dirty  []int  // window offsets written by the previous image
+	high   []byte // second table area at or above 4 GiB, followed by an inaccessible page; its addresses
+	// taken modulo 2^32 are reserved PROT_NONE, so a truncated 64-bit pointer faults
+	dirty []int // window offsets written by the previous image
+}
+
+const c14MapFixedNoReplace = 0x100000
+
+func c14MmapAt(addr uintptr, n int, prot int) (uintptr, bool) {
+	flags := syscall.MAP_ANON | syscall.MAP_PRIVATE
+	if addr != 0 {
+		flags |= c14MapFixedNoReplace
+	}
+	r, _, e := syscall.Syscall6(syscall.SYS_MMAP, addr, uintptr(n), uintptr(prot), uintptr(flags), ^uintptr(0), 0)
+	if e != 0 {
+		return 0, false
+	}
+	if addr != 0 && r != addr { // kernel without MAP_FIXED_NOREPLACE treated it as a hint
+		syscall.Syscall(syscall.SYS_MUNMAP, r, uintptr(n), 0)
+		return 0, false
+	}
+	return r, true
+}
+
+// c14HighArea maps the table area above 4 GiB and makes its low alias (address mod 2^32) inaccessible.
+func c14HighArea(t *testing.T) []byte {
+	n := (c14TablePages + 1) * 4096
+	for _, hint := range []uintptr{0x234567000, 0x312345000, 0x56789a000, 0x1fedcb000, 0x7abcde000, 0} {
+		hi, ok := c14MmapAt(hint, n, syscall.PROT_READ|syscall.PROT_WRITE)
+		if !ok {
+			continue
+		}
+		if hi < 1<<32 {
+			syscall.Syscall(syscall.SYS_MUNMAP, hi, uintptr(n), 0)
+			continue
+		}
+		if _, ok := c14MmapAt(hi&0xffffffff, n, syscall.PROT_NONE); !ok && hint != 0 {
+			syscall.Syscall(syscall.SYS_MUNMAP, hi, uintptr(n), 0)
+			continue
+		}
+		mem := (*[1 << 30]byte)(unsafe.Pointer(hi))[:n:n] // (the module's language version predates unsafe.Slice)
+		if err := syscall.Mprotect(mem[n-4096:], syscall.PROT_NONE); err != nil {
+			t.Fatal(err)
+		}
+		return mem[:n-4096]
+	}
+	t.Fatal("no memory above 4 GiB for the high table area")
+	return nil
 }
 
 func c14NewArena(t *testing.T) *c14Arena {
@@ -116,7 +167,7 @@ func c14NewArena(t *testing.T) *c14Arena {
 	if err := syscall.Mprotect(mem[total-4096:], syscall.PROT_NONE); err != nil {
 		t.Fatal(err)
 	}
-	a := &c14Arena{mem: mem, window: mem[:c14WindowSize], tables: mem[c14WindowSize+4096 : total-4096]}
+	a := &c14Arena{mem: mem, window: mem[:c14WindowSize], tables: mem[c14WindowSize+4096 : total-4096], high: c14HighArea(t)}
 	if uint64(uintptr(unsafe.Pointer(&mem[0])))+uint64(total) > 1<<32 {
 		t.Fatal("arena not below 4 GiB")
 	}
@@ -173,49 +224,71 @@ func (a *c14Arena) build(c *c14Case) c14Layout {
 		n   int
 		gap int
 	}
-	var order []placed
+	// a table that a 32-bit pointer refers to cannot live above 4 GiB (the logged image tells what was built)
+	for _, ti := range img.Rsdt {
+		img.Tables[ti-1].High = false
+	}
+	for i := range img.Tables {
+		if img.Tables[i].P32 != 0 {
+			img.Tables[img.Tables[i].P32-1].High = false
+		}
+	}
+	var order, orderHi []placed
 	for i, tb := range img.Tables {
-		order = append(order, placed{idx: i + 1, n: tb.Len})
-	}
-	order = append(order, placed{idx: -1, n: 36 + 4*len(img.Rsdt)}, placed{idx: -2, n: 36 + 8*len(img.Xsdt)})
-	rot := 0
-	if len(order) > 0 {
-		rot = (c.Fill + len(img.Cands) + len(img.Rsdt)) % len(order)
-	}
-	order = append(order[rot:], order[:rot]...)
-	total := 0
-	for i := range order {
-		if c.Fill != 0 {
-			order[i].gap = rng.Intn(48)
+		if tb.High {
+			orderHi = append(orderHi, placed{idx: i + 1, n: tb.Len})
 		} else {
-			order[i].gap = 4
+			order = append(order, placed{idx: i + 1, n: tb.Len})
 		}
-		if i == len(order)-1 {
-			order[i].gap = 0
-		}
-		total += order[i].n + order[i].gap
 	}
-	if total+64 > len(a.tables) {
-		panic("c14: table area too small")
-	}
-	for i := range a.tables {
-		a.tables[i] = 0xa5
+	order = append(order, placed{idx: -1, n: 36 + 4*len(img.Rsdt)})
+	if img.Xhigh {
+		orderHi = append(orderHi, placed{idx: -2, n: 36 + 8*len(img.Xsdt)})
+	} else {
+		order = append(order, placed{idx: -2, n: 36 + 8*len(img.Xsdt)})
 	}
 	lay := c14Layout{tableAddr: make([]uintptr, len(img.Tables))}
-	off := len(a.tables) - total
-	offs := map[int]int{}
-	for _, p := range order {
-		offs[p.idx] = off
-		switch p.idx {
-		case -1:
-			lay.rsdt = c14Addr(a.tables[off:])
-		case -2:
-			lay.xsdt = c14Addr(a.tables[off:])
-		default:
-			lay.tableAddr[p.idx-1] = c14Addr(a.tables[off:])
+	mem := map[int][]byte{}
+	place := func(area []byte, order []placed) {
+		if len(order) == 0 {
+			return
 		}
-		off += p.n + p.gap
+		rot := (c.Fill + len(img.Cands) + len(img.Rsdt)) % len(order)
+		order = append(order[rot:], order[:rot]...)
+		total := 0
+		for i := range order {
+			if c.Fill != 0 {
+				order[i].gap = rng.Intn(48)
+			} else {
+				order[i].gap = 4
+			}
+			if i == len(order)-1 {
+				order[i].gap = 0
+			}
+			total += order[i].n + order[i].gap
+		}
+		if total+64 > len(area) {
+			panic("c14: table area too small")
+		}
+		for i := range area {
+			area[i] = 0xa5
+		}
+		off := len(area) - total
+		for _, p := range order {
+			mem[p.idx] = area[off : off+p.n]
+			switch p.idx {
+			case -1:
+				lay.rsdt = c14Addr(area[off:])
+			case -2:
+				lay.xsdt = c14Addr(area[off:])
+			default:
+				lay.tableAddr[p.idx-1] = c14Addr(area[off:])
+			}
+			off += p.n + p.gap
+		}
 	}
+	place(a.tables, order)
+	place(a.high, orderHi)
 	header := func(b []byte, sig string, rev byte) {
 		copy(b, sig)
 		c14le.PutUint32(b[4:], uint32(len(b)))
@@ -227,7 +300,7 @@ func (a *c14Arena) build(c *c14Case) c14Layout {
 		c14le.PutUint32(b[32:], 2)
 	}
 	for i, tb := range img.Tables {
-		b := a.tables[offs[i+1] : offs[i+1]+tb.Len]
+		b := mem[i+1]
 		for j := range b {
 			b[j] = byte(rng.Intn(256))
 		}
@@ -255,13 +328,13 @@ func (a *c14Arena) build(c *c14Case) c14Layout {
 			b[tb.Bad] ^= byte(1 + rng.Intn(255))
 		}
 	}
-	rb := a.tables[offs[-1] : offs[-1]+36+4*len(img.Rsdt)]
+	rb := mem[-1]
 	header(rb, "RSDT", 1) // real firmware: root tables carry revision 1
 	for i, ti := range img.Rsdt {
 		c14le.PutUint32(rb[36+4*i:], uint32(lay.tableAddr[ti-1]))
 	}
 	c14FixSum(rb, 9)
-	xb := a.tables[offs[-2] : offs[-2]+36+8*len(img.Xsdt)]
+	xb := mem[-2]
 	header(xb, "XSDT", 1)
 	for i, ti := range img.Xsdt {
 		c14le.PutUint64(xb[36+8*i:], uint64(lay.tableAddr[ti-1]))
@@ -641,6 +714,13 @@ func c14RandImage(rng *rand.Rand) c14Case {
 		return out
 	}
 	img.Rsdt, img.Xsdt = list(), list()
+	// ---- 64-bit reachable structures may sit above 4 GiB (the builder lowers whatever a 32-bit pointer refers to)
+	img.Xhigh = rng.Intn(2) == 0
+	if rng.Intn(3) != 0 {
+		for i := range img.Tables {
+			img.Tables[i].High = rng.Intn(2) == 0
+		}
+	}
 	// ---- search window: possibly one valid root pointer, decoys at other slots (at least 3 slots apart)
 	used := map[int]bool{}
 	slot := func() int {
